@@ -107,6 +107,10 @@ class Scripted:
         self._do("get_many")
         return {k: "v" for k in keys}
 
+    def flush_all(self, *a, **k):
+        self._do("flush_all")
+        return True
+
     def set_many(self, values, *a, **k):
         self._do("set_many")
         return [kk for kk in values if str(kk).startswith("ns-")]      # items a (healthy) server answers NOT_STORED
@@ -120,8 +124,12 @@ ORDER = []          # scripted back-end: contacts and removals from the rotation
 
 def make_loghash(routes):
     class LogHash(RendezvousHash):
+        def add_node(self, node):
+            ORDER.append(("add", node))
+            return super().add_node(node)
+
         def remove_node(self, node):
-            ORDER.append(("remove", node))
+            ORDER.append(("remove", node, node in self.nodes))
             return super().remove_node(node)
 
         def get_node(self, key):
@@ -140,11 +148,12 @@ def make_minimal_hash(routes):
             self.__ring = []
 
         def add_node(self, node):
+            ORDER.append(("add", node))
             if node not in self.__ring:
                 self.__ring.append(node)
 
         def remove_node(self, node):
-            ORDER.append(("remove", node))
+            ORDER.append(("remove", node, node in self.__ring))
             if node not in self.__ring:
                 raise ValueError("No such node %s to remove" % (node,))
             self.__ring.remove(node)
@@ -294,6 +303,29 @@ def _run(case, hc, servers, names, owner, key_of, routes, world, env, clock):
         raise Violation([sig, case.get("backend", "scripted")], "%s; history %r (servers %d, retry_attempts %d, ignore_exc %r, %s back-end)"
                         % (msg, hist, ns, ra, ie, case.get("backend", "scripted")))
 
+    failed_since_add = {}
+
+    def scan_order():
+        if env is not None:
+            return
+        # exact order of events inside the call: a server leaves the rotation only after retry_attempts+1 failed contacts in
+        # a row - counted up to the moment of the removal, not to the end of the call that removes it - and a server that
+        # is in rotation is never taken out without having failed since it was put (back) in
+        for ev_ in ORDER[order_pos[0]:]:
+            if ev_[0] == "contact":
+                order_run[ev_[1]] = 0 if not ev_[2] else order_run.get(ev_[1], 0) + 1
+                if ev_[2]:
+                    failed_since_add[ev_[1]] = True
+            elif ev_[0] == "add":
+                failed_since_add[ev_[1]] = False
+            else:
+                if order_run.get(ev_[1], 0) < ra + 1:
+                    V("evicted-early", "%r was taken out of rotation after %d failed contact(s) in a row (since it last answered); retry_attempts=%d allows it after %d"
+                      % (ev_[1], order_run.get(ev_[1], 0), ra, ra + 1))
+                if ev_[2] and not failed_since_add.get(ev_[1], False):
+                    V("evicted-without-failure", "%r was in rotation and has not failed since it was put (back) in, yet it was taken out" % (ev_[1],))
+        order_pos[0] = len(ORDER)
+
     def do(opn, key):
         if env is not None:
             env.net.begin_call(world["call"])
@@ -360,6 +392,29 @@ def _run(case, hc, servers, names, owner, key_of, routes, world, env, clock):
             if env is not None:
                 mark = len(env.net.log)
             continue
+        if kind == "broadcast":
+            # flush_all goes to every server the client knows, those out of rotation included: it is not key-addressed (its
+            # contacts do not count towards the probing bounds), but what it learns about a server is a failure like any other
+            hist.append(("flush_all",))
+            try:
+                hc.flush_all()
+            except Exception as e:  # noqa: BLE001
+                if not (any(e is f for f in world["failing"].values()) or (env is not None and isinstance(e, OSError) and bool(world["failing"]))):
+                    V("internal-error", "flush_all() raised %r, not a failing server's error" % (e,))
+            new, mark = _contacts_since(world, env, servers, mark)
+            for (t, s, failed) in new:
+                fails_run[s] = 0 if not failed else fails_run.get(s, 0) + 1
+                clean[s] = not failed
+                if failed:
+                    ever_failed.add(s)
+            scan_order()
+            rot_now = rotation(hc)
+            in_rot_before = set(rot_now)
+            for s in servers:
+                if name(s) not in rot_now:
+                    died.add(s)
+            labels.add("broadcast")
+            continue
         if kind == "heal":
             s = servers[ev[1] % ns]
             world["failing"].pop(s, None)
@@ -395,16 +450,7 @@ def _run(case, hc, servers, names, owner, key_of, routes, world, env, clock):
             own_error = any(exc is f for f in world["failing"].values()) or (env is not None and isinstance(exc, OSError) and bool(world["failing"]))
             if not (own_error or (isinstance(exc, MemcacheError) and "All servers" in str(exc))):
                 V("internal-error", "%s(%r) raised %r, neither the failing server's error nor 'all servers down'" % (opn, key, exc))
-        if env is None:
-            # exact order of events inside the call: a server leaves the rotation only after retry_attempts+1 failed contacts in
-            # a row - counted up to the moment of the removal, not to the end of the call that removes it
-            for ev_ in ORDER[order_pos[0]:]:
-                if ev_[0] == "contact":
-                    order_run[ev_[1]] = 0 if not ev_[2] else order_run.get(ev_[1], 0) + 1
-                elif order_run.get(ev_[1], 0) < ra + 1:
-                    V("evicted-early", "%r was taken out of rotation after %d failed contact(s) in a row (since it last answered); retry_attempts=%d allows it after %d"
-                      % (ev_[1], order_run.get(ev_[1], 0), ra, ra + 1))
-            order_pos[0] = len(ORDER)
+        scan_order()
         rt = routes[r0:]
         for rot, k, node in rt:
             want = refhash.place(list(rot), k) if rot else None
@@ -476,6 +522,7 @@ def _run(case, hc, servers, names, owner, key_of, routes, world, env, clock):
         if exc is not None and (ie or not (isinstance(exc, MemcacheError) and "All servers" in str(exc))):
             V("exception-during-recovery", "with every server healthy, get raised %r" % (exc,))
     new, mark = _contacts_since(world, env, servers, mark)
+    scan_order()
     if sorted(rotation(hc)) != sorted(names):
         V("not-recovered", "two dead_timeouts of traffic after every server healed the rotation is %r, not %r" % (rotation(hc), names))
     for k, o in sorted(owner.items()):
@@ -519,6 +566,25 @@ def exhaustive_cases(tier, seed):
                         continue
                     yield {"servers": 1, "retry_attempts": ra, "ignore_exc": ie, "backend": "scripted", "recovery_step": 7,
                            "events": [alpha1[i] for i in seq], "recovery_op": ("get", "set_many", "get_many")[(sum(seq) + d) % 3]}
+
+
+BALPHA = [["op", "get", 0], ["op", "get", 1], ["op", "set_many", 0], ["adv", 1.5], ["adv", 61], ["fail", 0, "refused"], ["heal", 0], ["broadcast"]]
+
+
+def broadcast_cases(tier, seed):
+    """flush_all reaches every server the client knows - also one that is out of rotation - between the key-addressed calls:
+    what it learns there (the server is still down) must not leave anything behind that takes the server out again once it
+    is healthy and back, nor make a key's reads and writes part ways"""
+    depth = 5 if tier == "quick" else 6
+    for ra in (0, 1, 2):
+        for ie in (False, True):
+            for d in range(2, depth + 1):
+                for seq in itertools.product(range(len(BALPHA)), repeat=d):
+                    if 5 not in seq or 7 not in seq or seq.index(5) > seq.index(7):
+                        continue
+                    yield {"servers": 2 + (sum(seq) % 2), "retry_attempts": ra, "ignore_exc": ie, "backend": "scripted", "recovery_step": (7, 0.9, 13)[(sum(seq) + d) % 3],
+                           "events": [BALPHA[i] for i in seq], "recovery_op": ("get", "set_many", "get_many")[(sum(seq) + d) % 3],
+                           "hasher": "minimal" if sum(seq) % 5 == 0 else None}
 
 
 GAPS = [0.5, 1.5, 61]
@@ -796,6 +862,7 @@ def late_eviction_cases(tier, seed):
 
 PARTS = [
     Part("given-up-late", "enum", check, cases=late_eviction_cases, exhaustive=True, minimise=minimise),
+    Part("broadcasts-in-between", "enum", check, cases=broadcast_cases, exhaustive=True, minimise=minimise, distinct_by_construction=True),
     Part("two-users-at-once", "enum", check_two_users, cases=two_users_cases, exhaustive=True),
     Part("long-lives", "enum", check, cases=soak_cases, shards={"quick": 12, "thorough": 12}, minimise=minimise),
     Part("exhaustive-depth", "enum", check, cases=exhaustive_cases, exhaustive=True, minimise=minimise, distinct_by_construction=True),
